@@ -16,12 +16,15 @@
   * `plot_select`, `plot_modes_draws_select`   n = 0, 1, 2 draw ω, γ, V∂γ/∂V (true of the code since /repo 17c4262, which repaired
                                    the n = 1 / n = 2 swap this check had found; `plot_select_not_swapped` states the repaired defect).
   * `hermite_raises`               the `hermite` method cannot return (negative result).
+  * `mode_glue_is_source`          the triple pattern `(exp s, −s', −s'')` and the node preparation (thin / flip) of the model are the ones
+                                   the translator extracts from `mode_gamma.py` on this run (Generated/ModeGammaSpec.lean).
 
   PARTIAL (see the comments at the theorems): FITPACK / pchip / akima internals are a parameter (contract measured by the harness);
   `lstsqPolyfit` returns `some a` only after checking the normal equations — that the elimination always finds the solution
   of a non-singular system is checked at run time (every correspondence case), not proved.
 -/
 import CijProofs.Lemmas.Interp
+import CijProofs.Lemmas.ModeGammaSource
 import Mathlib.Analysis.SpecialFunctions.Log.Deriv
 import Mathlib.Analysis.SpecialFunctions.Pow.Real
 import Mathlib.Analysis.Calculus.Deriv.Polynomial
@@ -512,5 +515,32 @@ example :
     plotModes (calculatorWiring f g d) 4 0 0 = .ok [[100, 120]] ∧ plotModes (calculatorWiring f g d) 4 1 0 = .ok [[3 / 2, 3 / 2]] ∧
       plotModes (calculatorWiring f g d) 4 2 0 = .ok [[0, 0]] ∧ plotModes (calculatorWiring f g d) 4 3 0 = .error .unboundLocal := by
   decide +kernel
+
+/-! #### the glue is the source's -/
+
+/-- **model-is-source** for the glue of `mode_gamma.py`.  For every method `m` that dispatches to a source function `f`
+(`interpolate_modes`' if-chain, compared by the translator): (1) `f`'s returned triple, as extracted from the source on this run,
+is `(exp ·(order 0), −·(order 1), −·(order 2))`; (2) `finishMode` applies exactly that pattern to the kernel's samples;
+(3) `modeNodes` thins and flips the nodes exactly as `f` does.  A source change to a sign, a derivative order, the `exp`,
+the thinning stride or a flip changes `Generated/ModeGammaSpec.lean` and this theorem stops checking. -/
+theorem mode_glue_is_source {α : Type} [Neg α] [Zero α] [ExpLog α] (m : Method) (f : String) (h : m.pyFunction = some f)
+    (order : ℕ) (ho : order ≠ 0) (I : Interpolant α) (vols freqs nv nf va : List α) :
+    Generated.modeReturnPattern.lookup f = some canonicalPattern ∧
+    (finishMode I nv nf va = (do
+      let r ← I (nv.map ExpLog.log) (nf.map ExpLog.log) (va.map ExpLog.log)
+      pure (r.map fun t => (applyElem t (true, false, 0), applyElem t (false, true, 1), applyElem t (false, true, 2))))) ∧
+    ∃ sp, Generated.modeNodesSpec.lookup f = some sp ∧
+      modeNodes m order vols freqs = .ok (nodesBySpec sp order vols, nodesBySpec sp order freqs) := by
+  refine ⟨?_, finish_is_pattern I nv nf va, mode_nodes_is_source m f h order ho vols freqs⟩
+  cases m <;> simp [Method.pyFunction] at h <;> subst h <;> decide
+
+/-- all five source functions are covered, and all return the canonical pattern -/
+theorem mode_return_pattern_all : Generated.modeReturnPattern.length = 5 ∧
+    ∀ e ∈ Generated.modeReturnPattern, e.2 = canonicalPattern := ⟨by decide, return_pattern_is_source⟩
+
+/-- non-vacuity: `pchip` dispatches to `interpolate_mode_ppoly`, which thins and flips; `lsq_poly` does neither -/
+example : Method.pchip.pyFunction = some "interpolate_mode_ppoly" ∧
+    Generated.modeNodesSpec.lookup "interpolate_mode_ppoly" = some (true, true) ∧
+    Generated.modeNodesSpec.lookup "interpolate_mode_lsq_poly" = some (false, false) := by decide
 
 end Cij.C11
